@@ -19,6 +19,7 @@ from .vcgen import Translator, FunctionVerifier, LemmaVerifier, Result
 
 FAMILIES = {
     'layout': 'pvf.contracts.layout',
+    'runpretty': 'pvf.contracts.runpretty',
 }
 
 
